@@ -647,7 +647,13 @@ func (c *Context) Cbrt(d, x *Decimal) (Condition, error) {
 	}
 
 	z0.Set(x)
-	res := c.round(d, &z)
+	// z is only an approximation of the root, accurate to far less than one
+	// unit in the last place. Round it to nearest, like Sqrt does: a directed
+	// rounding mode would turn that tiny error into a whole unit and return
+	// the neighbour of the exact root for perfect cubes.
+	rc := c.WithPrecision(c.Precision)
+	rc.Rounding = RoundHalfEven
+	res := rc.round(d, &z)
 	res, err := c.goError(res)
 	d.Negative = neg
 
